@@ -1043,54 +1043,7 @@ def _positions_by_slice(repo, g, target="original_coefficient_positions"):
     return (got, [1, 2], "")
 
 
-@rule(
-    "KERNEL-ONCE",
-    ["C06"],
-    "compute_ir lists, for every integral, the cell types it has kernels for; the integrand map is keyed by (cell type, "
-    "quadrature rule), so the collection must be duplicate-free by construction (set / set comprehension / dict.fromkeys / "
-    "sorted(set(..))) - otherwise an integral with two rules appears twice under its id and is added twice; the form IR "
-    "takes these domains per integral name",
-    min_instances=2,
-)
-def kernel_once(repo, res):
-    rep = repo.mod("ffcx.ir.representation")
-    f = rep.func("compute_ir")
-    res.functions.add(f.key)
-    key = f"{f.key}:integral_domains:duplicate-free"
-    res.ob(key)
-    tgt = None
-    for n in ast.walk(f.node):
-        if isinstance(n, ast.Assign) and isinstance(n.targets[0], ast.Name) and n.targets[0].id == "integral_domains":
-            tgt = n
-    if tgt is None or not isinstance(tgt.value, ast.DictComp):
-        raise AnalysisError("compute_ir: integral_domains is not built by a dict comprehension")
-    v = tgt.value.value
-    t = ast.unparse(v)
-    if "integrand" not in t:
-        raise AnalysisError("compute_ir: integral_domains values are not derived from the integrand keys")
-
-    def dedup(e) -> bool:
-        if isinstance(e, (ast.SetComp, ast.Set)):
-            return True
-        if isinstance(e, ast.Call):
-            nm = call_name(e) or ""
-            if nm in ("set", "frozenset"):
-                return True
-            if nm in ("sorted", "list", "tuple") and e.args:
-                return dedup(e.args[0])
-            if nm in ("dict.fromkeys",):
-                return True
-            if nm.endswith("unique"):
-                return True
-        return False
-
-    if not dedup(v):
-        res.fail(key, f"integral_domains[name] = `{t[:90]}` keeps one entry per (cell type, quadrature rule) key: an integral lowered with two rules "
-                 "(m*ds(7, degree=2) + 3*m*ds(7, degree=4)) lists its kernel twice under id 7 and is added twice by the assembler", rep.line(tgt))
-    key = f"{f.key}:integral_domains:first-key-component"
-    res.ob(key)
-    if not re.search(r"\b(\w+)\[0\] for \1 in [\w.]+\.integrand(\.keys\(\))?", t):
-        res.fail(key, f"the cell type is not taken as the first component of the integrand keys in `{t[:80]}`", rep.line(tgt))
+# KERNEL-ONCE moved to rules/cli.py: compute_ir is interpreted and the cell types handed to the form IR are read back.
 
 
 @rule(
